@@ -113,7 +113,7 @@ CHECKS = {
          TRUST + "; trusted mathematics: Shpitser & Pearl 2008 Lemmas 24, 25; the bounded part trusts y0vc/fscm.py", TECH + " (merge_pw) + bounded functional-SCM oracle", "DESIGN.md §5 C18"),
  "C06": ("other", "Deductive part: every summation range that ID introduces (lines 1, 2, 4, 6) and every argument of the conditionals P(v | predecessors) it builds (lines 6, 7) is proved, "
          "for all graphs and queries, to be a plain node of the graph the function was called with (`audit.*` obligations attached to the Sum.safe / p_conditional call sites of "
-         "identify, line_1, line_2, line_7), and every recursive call is on a graph whose nodes are nodes of the caller's graph (the `decreases` obligations of C02) -- so, inductively, "
+         "identify, line_1, line_2, line_7; those of identify and line_7 are generated and discharged in the runs of their owner properties C02 and C01 and listed here as assumed), and every recursive call is on a graph whose nodes are nodes of the caller's graph (the `decreases` obligations of C02) -- so, inductively, "
          "of the user's graph. What a Sum.safe / p_conditional / marginalize call does with those arguments is an assumed leaf contract. The vocabulary of complete estimands (a recursive predicate over expression trees: leaves, subscripts, population tags) "
          "is outside what the contracts in place express; it is decided by the labelled bounded stand-in: a syntactic vocabulary check of the estimands returned by ID (C01 query set), "
          "IDC (C03 query set: only observational terms over graph nodes), ID* / IDC* (sampled events over every ADMG with 2-3 nodes and sampled 3-4 node ADMGs: every probability term "
